@@ -22,6 +22,23 @@ example : (run stepNew c03SaveSched (initSys c03SaveParts)).tasks.all (·.pc == 
 end C03Save
 
 
+/-! ### Extracted/EquivC15 -/
+section EquivC15
+open PysparklingVerif.Gen.C15 PysparklingVerif.Extracted.C15
+
+-- NONVACUOUS: PysparklingVerif.Extracted.C15.renamed_names_agree
+example : renamedRowNames "b" "z" ["a", "b", "c"] [(), (), ()] = renamedSchemaNames "b" "z" ["a", "b", "c"] :=
+  (renamed_names_agree "b" "z" ["a", "b", "c"] [(), (), ()] (by decide)).1
+
+-- NONVACUOUS: PysparklingVerif.Extracted.C15.toDF_names_agree
+example : toDFSchemaNames ["x", "y", "z"] ["a", "b", "c"] = ["x", "y", "z"] :=
+  (toDF_names_agree ["x", "y", "z"] ["a", "b", "c"] [(), (), ()] (by decide)).2 (by decide)
+
+-- NONVACUOUS: PysparklingVerif.Extracted.C15.union_names_agree
+example : unionOtherRowNames ["a", "b", "c"] [(), (), ()] = ["a", "b", "c"] :=
+  union_names_agree ["a", "b", "c"] [(), (), ()] (by decide)
+end EquivC15
+
 /-! ### Extracted/EquivC13 -/
 section EquivC13
 open PysparklingVerif.Gen.C13 PysparklingVerif.Extracted.C13
@@ -97,6 +114,7 @@ import PysparklingVerif.Extracted.EquivC10
 import PysparklingVerif.Extracted.EquivC11
 import PysparklingVerif.Extracted.EquivC13
 import PysparklingVerif.Extracted.EquivC14
+import PysparklingVerif.Extracted.EquivC15
 import PysparklingVerif.Extracted.EquivC16
 import PysparklingVerif.Extracted.EquivC17
 import PysparklingVerif.Extracted.EquivC18
@@ -1520,6 +1538,8 @@ end EquivC11
 -- NO-HYPOTHESES: PysparklingVerif.Extracted.C10.queueGet_eq
 -- NO-HYPOTHESES: PysparklingVerif.Extracted.C10.fileGet_eq
 -- NO-HYPOTHESES: PysparklingVerif.C03.save_old_code_race
+-- NO-HYPOTHESES: PysparklingVerif.C15.rows_source_consistent
+-- NO-HYPOTHESES: PysparklingVerif.C15.rows_source_old_code
 -- NO-HYPOTHESES: PysparklingVerif.Extracted.C01.aggregate_eq
 -- NO-HYPOTHESES: PysparklingVerif.Extracted.C01.fold_eq
 -- NO-HYPOTHESES: PysparklingVerif.Extracted.C01.count_eq
@@ -1535,6 +1555,7 @@ end EquivC11
 -- NO-HYPOTHESES: PysparklingVerif.Extracted.C13.mergeSchemas_cross
 -- NO-HYPOTHESES: PysparklingVerif.Extracted.C14.updateMoments_eq
 -- NO-HYPOTHESES: PysparklingVerif.Extracted.C14.mergeMoments_eq
+-- NO-HYPOTHESES: PysparklingVerif.Extracted.C15.drop_names_agree
 -- NO-HYPOTHESES: PysparklingVerif.Extracted.C16.bernoulli_eq
 -- NO-HYPOTHESES: PysparklingVerif.Extracted.C16.randomSplit_eq
 -- NO-HYPOTHESES: PysparklingVerif.Extracted.C16.boundaries_eq
